@@ -541,6 +541,37 @@ fn c10_matrix(sim: &mut Sim, rng: &mut Rng, idx: usize, out: &mut Vec<Violation>
         }
         absorb(sim, c, idx, out);
     }
+    // the dispatcher re-pointed to another hub, in one message together with other fields: the
+    // previous hub loses swap / dispatch at once (judged against what the owner sent, not
+    // against what the dispatcher's Config answers afterwards)
+    {
+        let mut c = child_of(sim);
+        let d_owner = c.obs.dispatcher.as_ref().map(|d| d.owner.clone()).unwrap_or_default();
+        let mut m = serde_json::Map::new();
+        m.insert("hub_contract".into(), json!("hub2"));
+        if rng.chance(2, 3) {
+            m.insert("krp_keeper_rate".into(), json!("0.25"));
+        }
+        if rng.chance(1, 2) {
+            m.insert("krp_keeper_address".into(), json!(KEEPER));
+        }
+        if rng.chance(1, 3) {
+            m.insert("bsei_reward_denom".into(), json!(REWARD_DENOM));
+        }
+        let o = c.apply(&tx_step(raw("dispatcher_repoint_hub", &d_owner, DISPATCHER, &json!({ "update_config": Value::Object(m.clone()) }), vec![])));
+        if o.map(|o| o.ok).unwrap_or(false) {
+            c.stats.probe("c10_dispatcher_repointed");
+            for msg in [json!({"swap_to_reward_denom": {"bsei_total_bonded": "1", "stsei_total_bonded": "1"}}), json!({"dispatch_rewards": {}})] {
+                let tx = Tx { sender: HUB.into(), contract: DISPATCHER.into(), msg: msg.clone(), funds: vec![] };
+                let (nw, o) = crate::wasm::run_tx(&c.w, &tx, None);
+                c.stats.check("c10_matrix_cell");
+                if nw.is_some() || o.err_at.map(|i| i != 0).unwrap_or(false) {
+                    viol(out, "C10", "privileged_message_rejected_for_unauthorised_sender", idx, "dispatcher:previous_hub_still_accepted", format!("after UpdateConfig {} the previous hub is still accepted for {}", Value::Object(m.clone()), msg));
+                }
+            }
+        }
+        absorb(sim, c, idx, out);
+    }
     let variant = rng.below(4);
     let mut c = child_of(sim);
     for contract in [HUB, DISPATCHER, REWARD, REGISTRY] {
@@ -1070,7 +1101,7 @@ fn c20_instantiate(sim: &mut Sim, rng: &mut Rng, idx: usize, out: &mut Vec<Viola
         }
         // ---- dispatcher
         let rate = pick(rng);
-        let sdenom = rng.pick(&[DENOM, "uother"]).to_string();
+        let sdenom = rng.pick(&[DENOM, "uother", ""]).to_string();
         let daddr = format!("disp_i{}_{}", idx, round);
         let dmsg = basset_sei_rewards_dispatcher::msg::InstantiateMsg {
             hub_contract: HUB.into(),
